@@ -20,7 +20,7 @@ RULE = ('cases = generated chains of 2-4 concurrent writers (sequential interlea
         'them, references compared by (oid, database, weak); a fresh connection loads exactly the resolver\'s return value '
         'with every reference leading to the same object; the writer\'s connection then reads the merged state; for the '
         'unresolvable variants the commit raises ConflictError and nothing is stored; evaluations = commits checked; '
-        'non-trivial = a resolution that ran with old != committed != new and >= 1 reference in the state; distinct by case hash')
+        'non-trivial = a resolution that ran with old != committed != new and >= 1 reference in the state; distinct by case hash; later additions: comparisons of the references handed to the resolver (IPersistentReference), keys whose reference format varies between states, writers that take a savepoint, an observer between the connection\'s finish and the next invalidation, two undos of one object in one transaction, states holding the object\'s own class, a resolvable class with constructor arguments, classes of referenced objects gone from an importable module')
 ASSUMPTIONS = ['the module-level caches of ZODB.ConflictResolution are cleared at the top of every case',
                'the undo path of resolution is exercised numerically in C06']
 BUDGET = {'quick': {'examples': 12000, 'workers': 8},
